@@ -175,13 +175,21 @@ theorem feed_dropInterrupts (cs : List Chunk) (w w' : WriteWrapper)
   induction cs generalizing w w' with
   | nil => simp [feed, he, hd]
   | cons c cs ih =>
-    obtain ⟨a, b, d⟩ := writeAll_dropInterrupts w.script c.bytes
-    simp only [feed, put_wrapper, WriteWrapper.writeBytes, hs]
-    rw [b]
-    cases hx : (writeAll w.script c.bytes).err with
+    cases hwe : w.err with
+    | some e =>
+      have hwe' : w'.err = some e := by rw [he, hwe]
+      simp only [feed, put_wrapper, writeBytes_of_some hwe, writeBytes_of_some hwe']
+      exact ⟨trivial, by rw [hwe, hwe'], hd⟩
     | none =>
-      simp only []
-      exact ih _ _ (by simpa using a) (by simpa using he) (by simp [hd, d])
-    | some e => simp [hd, d]
+      have hwe' : w'.err = none := by rw [he, hwe]
+      obtain ⟨a, b, d⟩ := writeAll_dropInterrupts w.script c.bytes
+      simp only [feed, put_wrapper, writeBytes_of_none hwe, writeBytes_of_none hwe',
+        WriteWrapper.writeBytesOk, hs]
+      rw [b]
+      cases hx : (writeAll w.script c.bytes).err with
+      | none =>
+        simp only []
+        exact ih _ _ (by simpa using a) (by simp [hwe, hwe']) (by simp [hd, d])
+      | some e => simp [hd, d]
 
 end MJ.Output
